@@ -42,18 +42,26 @@ def main():
     from klepto.archives import cache as kcache
     out = dict(hashseed=os.environ.get('PYTHONHASHSEED'), keys=[], calls=[])
     if job['mode'] == 'keys':
-        for item in job['items']:
+        work = [(ii, ci) for ii, item in enumerate(job['items']) for ci in range(len(item['calls']))]
+        order = list(range(len(work)))
+        if job.get('shuffle'): random.Random(job['shuffle']).shuffle(order)
+        res = [None] * len(work)
+        kms = {}
+        for oi in order:
+            ii, ci = work[oi]
+            item = job['items'][ii]
             f = FUNCS[item['func']] if item['func'] != 'm' else K().m
-            km = make_km(item['km'][0], item['km'][1])
+            if ii not in kms: kms[ii] = make_km(item['km'][0], item['km'][1])
+            km = kms[ii]
             ign = tuple(item['ignore'])
-            for call in item['calls']:
-                a, k = build(call)
-                try:
-                    ua, uk = _keygen(f, ign, *a, **k)
-                    key = km(*ua, **uk)
-                    out['keys'].append(repr(key))
-                except Exception as e:
-                    out['keys'].append('EXC:' + type(e).__name__)
+            a, k = build(item['calls'][ci])
+            try:
+                ua, uk = _keygen(f, ign, *a, **k)
+                key = km(*ua, **uk)
+                res[oi] = repr(key)
+            except Exception as e:
+                res[oi] = 'EXC:' + type(e).__name__
+        out['keys'] = res
     else:
         item = job['item']
         f = FUNCS[item['func']]
